@@ -260,3 +260,86 @@ def c10(tier, seed, replay):
            "harness_stats": stats, "binding_selftest": selftest, "samples": scenarios[:2], "known_findings_seen": nk}
     vlib.write_evidence("C10", tier, seed, "model_checking", cov, time.time() - t0, nv, ASSUME_COMMON)
     return 1 if nv else 0
+
+
+# ------------------------------------------------------------------------------------------------
+# C29
+# ------------------------------------------------------------------------------------------------
+def backup_scenarios(tier, seed):
+    import random
+    rng = random.Random(seed)
+    t1 = {"op": "tx", "ops": [["CreateNode", "11", "A"], ["CreateEdge", 0, "R", 2], ["SetNP", 0, "p", "i:2"]]}
+    t2 = {"op": "tx", "ops": [["CreateNode", "12", "B"], ["SetNP", 1, "q", "s:y"]]}
+    t3 = {"op": "tx", "ops": [["SetNP", 0, "p", "i:3"], ["CreateEdge", 1, "S", 0]]}
+    cp = {"op": "compact"}
+    cr = {"op": "close-reopen"}
+    base = BASE + [{"op": "tx", "ops": [["CreateEdge", 1, "R", 0]]}]
+    sc = [
+        {"id": "quiescent", "prefix": base, "gaps": [[], [], []]},
+        {"id": "quiescent-compacted", "prefix": base + [cp], "gaps": [[], [], []]},
+        {"id": "commit-before", "prefix": base, "gaps": [[t1], [], []]},
+        {"id": "commit-between", "prefix": base, "gaps": [[], [t1], []]},
+        {"id": "commit-after", "prefix": base, "gaps": [[], [], [t1]]},
+        {"id": "commits-everywhere", "prefix": base, "gaps": [[t1], [t2], [t3]]},
+        {"id": "compact-between", "prefix": base, "gaps": [[], [cp], []]},
+        {"id": "commit-compact-between", "prefix": base, "gaps": [[], [t1, cp], []]},
+        {"id": "compact-commit-between", "prefix": base + [cp], "gaps": [[], [t1, cp, t2], []]},
+        {"id": "close-rewrite-between", "prefix": base + [cp], "gaps": [[], [cr], []]},
+        {"id": "commit-close-between", "prefix": base, "gaps": [[], [t1, cp, cr, t2], []]},
+    ]
+    n = 3 if tier == "quick" else 40
+    for i in range(n):
+        ops = [rng.choice([t1, t2, t3, cp, cp, cr]) for _ in range(rng.randint(1, 4))]
+        # a transaction template is used at most once per scenario (external ids are unique)
+        seen, uniq = set(), []
+        for o in ops:
+            k = json.dumps(o)
+            if o["op"] == "tx" and k in seen:
+                continue
+            seen.add(k)
+            uniq.append(o)
+        gaps = [[], [], []]
+        for o in uniq:
+            gaps[rng.randrange(3)].append(o)
+        sc.append({"id": "random/%d" % i, "prefix": base + ([cp] if rng.random() < 0.5 else []), "gaps": gaps})
+    return sc
+
+
+@reg("C29")
+def c29(tier, seed, replay):
+    t0 = time.time()
+    vlib.build_harness()
+    cd = cache_dir("backup", tier, seed)
+    os.makedirs(cd, exist_ok=True)
+    scenarios = [json.load(open(replay))["scenario"]] if replay else backup_scenarios(tier, seed)
+    ip, tp = os.path.join(cd, "scenarios.ndjson"), os.path.join(cd, "trace.ndjson")
+    vlib.write_ndjson(ip, scenarios)
+    stats = vlib.nvx(["backup", "--in", ip, "--out", tp, "--scratch", os.path.join(cd, "scratch")])
+    shutil.rmtree(os.path.join(cd, "scratch"), ignore_errors=True)
+    findings, info = vlib.tlc_trace("SchedTrace", tp, "backup-" + tier)
+    lines = open(tp).read().splitlines()
+    by_id = {s["id"]: s for s in scenarios}
+    completed = sum(1 for l in lines if json.loads(l).get("backup") == "ok")
+    selftest = {"ran": False}
+    if not replay:
+        dirty = {f["at"] for f in findings}
+        idx = next((i for i in range(len(lines)) if (i + 1) not in dirty and json.loads(lines[i]).get("open") == "ok"), None)
+        if idx is not None:
+            e = json.loads(lines[idx])
+            e["d"]["np1"] = e["d"]["np1"] + [[0, "zz", "s:corrupt"]]
+            sp = os.path.join(cd, "selftest.ndjson")
+            open(sp, "w").write(json.dumps(e) + "\n")
+            sf, _ = vlib.tlc_trace("SchedTrace", sp, "backup-selftest")
+            if not sf:
+                raise ToolError("binding self-test failed: corrupted restored dump accepted")
+            selftest = {"ran": True, "findings_on_corrupted_trace": len(sf)}
+    nv, nk = generic_verdict("C29", findings, lambda f: {"property": "C29", "finding": f, "scenario": by_id.get(f["id"])})
+    cov = {"states": info.get("distinct", 0), "transitions": info.get("states_generated", 0),
+           "traces_validated_against_impl": len(scenarios), "evaluations": len(scenarios), "distinct_nontrivial": completed,
+           "rule": "writer operations (commits, compaction, close + log rewrite + reopen) placed in the three gaps of a backup by the "
+                   "schedule controller; non-trivial = the backup completed and was restored",
+           "harness_stats": stats, "binding_selftest": selftest, "samples": scenarios[3:5], "known_findings_seen": nk}
+    vlib.write_evidence("C29", tier, seed, "model_checking", cov, time.time() - t0, nv,
+                        ASSUME_COMMON + ["the writer operations run while the backup thread is parked at a schedule point; a writer running "
+                                         "during a file copy itself is not forced"])
+    return 1 if nv else 0
